@@ -89,16 +89,76 @@ def write_gro(path, atoms, box):
         out.write("%s %s %s\n" % box)
 
 
+def write_pdb(path, atoms, box, models=1, ter_every=0):
+    """same atoms as a PDB file (coordinates in Angstrom, CRYST1 box); `models` > 1 adds further MODEL
+    blocks with other coordinates (only the first counts), `ter_every` puts TER records between atoms"""
+    with open(path, "w") as out:
+        out.write("TITLE     verif\n")
+        out.write("CRYST1%9.3f%9.3f%9.3f%7.2f%7.2f%7.2f P 1           1\n"
+                  % (float(box[0]) * 10, float(box[1]) * 10, float(box[2]) * 10, 90, 90, 90))
+        for model in range(models):
+            if models > 1:
+                out.write("MODEL     %4d\n" % (model + 1))
+            for idx, (resid, resname, atomname, xyz) in enumerate(atoms):
+                x, y, z = [round(float(v) * 10 + 3.0 * model, 3) for v in xyz]
+                out.write("ATOM  %5d %-4s %-4s%1s%4d    %8.3f%8.3f%8.3f%6.2f%6.2f\n"
+                          % ((idx + 1) % 100000, atomname[:4], resname[:4], "A", resid % 10000, x, y, z, 1.0, 0.0))
+                if ter_every and (idx + 1) % ter_every == 0 and idx + 1 < len(atoms):
+                    out.write("TER\n")
+            if models > 1:
+                out.write("ENDMDL\n")
+        out.write("END\n")
+
+
+FORMATS = ["gro", "gro", "pdb", "pdb", "pdb-models", "pdb-ter"]
+
+
+def write_coords(base, kind, atoms, box):
+    """write the input structure in the given format; returns the path.  (A PDB file without a single atom
+    record makes `_coord_parser` raise IndexError on `molecules[0]` — noted in notes/C04_findings.md, an empty
+    structure is not an input the property speaks about — so an empty structure is always written as .gro.)"""
+    if kind == "gro" or not atoms:
+        path = Path(str(base) + ".gro")
+        write_gro(path, atoms, box)
+    else:
+        path = Path(str(base) + ".pdb")
+        write_pdb(path, atoms, box, models=3 if kind == "pdb-models" else 1, ter_every=2 if kind == "pdb-ter" else 0)
+    return path
+
+
+def read_positions(path):
+    """the trusted reader (vermouth, nothing excluded): every atom record of the file, in file order"""
+    import networkx as nx
+    from vermouth.gmx.gro import read_gro
+    from vermouth.pdb import read_pdb
+    if str(path).endswith(".gro"):
+        mols = [read_gro(path, exclude=())]
+    else:
+        mols = read_pdb(path, exclude=())
+    return [[float(x) for x in mol.nodes[n]["position"]] for mol in mols for n in mol.nodes]
+
+
+# residue names that coordinate readers or other tools treat specially (water, ions)
+SPECIAL_NAMES = ["SOL", "HOH", "W", "NA", "CL", "ION", "TIP3"]
+
+
 def fmt(x):
     return "%.3f" % x
 
 
 def gen_types(rng, max_types=3, max_res=6, repeat_resids=True):
     types = {}
+    specials = list(SPECIAL_NAMES)
+    rng.shuffle(specials)
     for tidx in range(rng.randint(1, max_types)):
         name = "MOL" + "ABC"[tidx]
         nres = rng.randint(1, max_res)
         pool = ["R%s%d" % ("ABC"[tidx], i) for i in range(rng.randint(1, 3))]
+        if rng.random() < 0.45:
+            # water / ion like residue names (each used by one molecule type only)
+            pool[rng.randrange(len(pool))] = specials.pop()
+            if rng.random() < 0.3:
+                pool = [pool[-1]] if pool[-1] in SPECIAL_NAMES else pool
         residues = [(rng.choice(pool), rng.randint(1, 3)) for _ in range(nres)]
         parents = [None] + [rng.randrange(i) if rng.random() < 0.3 else i - 1 for i in range(1, nres)]
         # residue numbers: normally 1..n; sometimes a residue repeats the number of its predecessor under
@@ -248,6 +308,13 @@ def same_out(impl, model, exact_atoms=True):
     return True
 
 
+def _desc(case):
+    out = {k: case[k] for k in ("listing", "ncoords", "skip", "meta")}
+    out["fmt"] = case.get("fmt", "gro")
+    out["resnames"] = sorted({r[0] for t in case["types"].values() for r in t["residues"]})
+    return out
+
+
 def consume_case(ctx, case, tmpdir):
     """case: types, listing, ncoords, skip, meta"""
     top_path = Path(tmpdir) / "sys.top"
@@ -255,8 +322,19 @@ def consume_case(ctx, case, tmpdir):
     write_top(top_path, case["types"], case["listing"])
     rng = random.Random(case["seed"])
     pts = layout_points(case["ncoords"], rng)
-    atoms = [(i + 1, "X", "A", (fmt(p[0]), fmt(p[1]), fmt(p[2]))) for i, p in enumerate(pts)]
-    write_gro(gro_path, atoms, ("8.0", "8.0", "8.0"))
+    # atom records carry the names of the residues they are meant for (residues skipped by name are not
+    # in the file); records beyond the topology are called XTR
+    labels = []
+    for (_, _, ridx, resname, natoms) in flat_residues(case["types"], case["listing"]):
+        if resname in case["skip"]:
+            continue
+        if case["meta"]:
+            labels.append((ridx + 1, resname, "C"))
+        else:
+            labels += [(ridx + 1, resname, "A%d" % a) for a in range(natoms)]
+    labels += [(9999, "XTR", "X")] * max(0, len(pts) - len(labels))
+    atoms = [(lab[0], lab[1], lab[2], (fmt(p[0]), fmt(p[1]), fmt(p[2]))) for lab, p in zip(labels, pts)]
+    gro_path = write_coords(Path(tmpdir) / "in", case.get("fmt", "gro"), atoms, ("8.0", "8.0", "8.0"))
     top = load_topology(top_path)
     residues = real_residues(top)
     try:
@@ -267,7 +345,7 @@ def consume_case(ctx, case, tmpdir):
         impl = "reject"
     except Exception as err:  # pylint: disable=broad-except
         impl = "crash:%s: %s" % (type(err).__name__, str(err)[:120])
-    ps = [[common.rat_str(float(fmt(x))) for x in p] for p in pts]
+    ps = [[common.rat_str(x) for x in p] for p in read_positions(gro_path)]
     req = dict(op="consume", skip=list(case["skip"]), meta=bool(case["meta"]), ps=ps, residues=residues)
     return impl, req, residues
 
@@ -281,7 +359,7 @@ def judge_consume(ctx, case, impl, ans):
     if isinstance(impl, str) and impl.startswith("crash:"):
         ctx.correspond("add_positions_from_file", impl, "reject" if model == "reject" else "ok", replay)
         ctx.oracle_fail("add-positions-crashed", "add_positions_from_file raised %s on %s"
-                        % (impl[6:], {k: case[k] for k in ("listing", "ncoords", "skip", "meta")}), replay)
+                        % (impl[6:], _desc(case)), replay)
         ctx.case(None, stream="consume", result="crash")
         return
     if impl == "reject" or model == "reject":
@@ -295,13 +373,13 @@ def judge_consume(ctx, case, impl, ans):
     if impl == "reject" and model != "reject":
         # every residue that starts reading is complete in the file, yet nothing is taken over
         ctx.oracle_fail("complete-input-rejected", "add_positions_from_file raised IOError although every residue that "
-                        "reads coordinates is complete: %s" % {k: case[k] for k in ("listing", "ncoords", "skip", "meta")}, replay)
+                        "reads coordinates is complete: %s" % _desc(case), replay)
     if impl != "reject":
         for idx, (got, want) in enumerate(zip(impl, ans["spec"])):
             if not same_out(got, want):
                 ctx.oracle_fail("residue-not-as-specified",
                                 "residue %d (offset %d) of %s: got %s, the property demands %s"
-                                % (idx, ans["offsets"][idx], {k: case[k] for k in ("listing", "ncoords", "skip", "meta")},
+                                % (idx, ans["offsets"][idx], _desc(case),
                                    json.dumps(got)[:300], json.dumps(want)[:300]), replay)
                 break
             if got["build"]:
@@ -309,8 +387,10 @@ def judge_consume(ctx, case, impl, ans):
             else:
                 n_given += 1
     key = json.dumps(case, sort_keys=True) if (n_given and n_gen) else None
+    ctx.tally(input_format=case.get("fmt", "gro"),
+              special_resnames=any(r[0] in SPECIAL_NAMES for t in case["types"].values() for r in t["residues"]))
     ctx.case(key, sample=dict(stream="consume", listing=case["listing"], ncoords=case["ncoords"], skip=case["skip"],
-                              meta=case["meta"], result="reject" if impl == "reject" else "%d given %d to build" % (n_given, n_gen)),
+                              meta=case["meta"], fmt=case.get("fmt", "gro"), result="reject" if impl == "reject" else "%d given %d to build" % (n_given, n_gen)),
              stream="consume", meta=case["meta"], skipped=bool(case["skip"]),
              result="reject" if impl == "reject" else "all-given" if not n_gen else "none-given" if not n_given else "mixed")
 
@@ -339,7 +419,7 @@ def gen_consume_cases(ctx):
         else:
             ncoords = rng.randint(0, total + 2)
         cases.append(dict(types=types, listing=listing, ncoords=ncoords, skip=skip, meta=meta,
-                          seed=rng.randint(0, 10 ** 6)))
+                          fmt=rng.choice(FORMATS), seed=rng.randint(0, 10 ** 6)))
     return cases
 
 
@@ -462,6 +542,7 @@ def gen_e2e_case(rng, mode=None):
             cut = rng.randint(last_ign + 1, len(flat)) if rng.random() < 0.3 else len(flat)
             given = [(r[3] not in build_res) and i < cut for i, r in enumerate(flat)]
     return dict(types=types, listing=listing, mode=mode, given=given, centres_given=centres_given,
+                fmt=rng.choice(FORMATS), fmt_meta=rng.choice(FORMATS),
                 build_res=sorted(set(build_res)), ignore=ignore,
                 fail_attempts=rng.choice([0, 0, 1, 2, 3]), fail_steps=rng.choice([0, 0, 0, 2, 5]),
                 nrewind=rng.choice([5, 5, 1, 2]), seed=rng.randint(0, 10 ** 6))
@@ -489,18 +570,17 @@ def run_e2e(case, tmpdir):
         else:
             for a in range(natoms):
                 atoms.append((ridx + 1, resname, "A%d" % a, (fmt(centre[0]), fmt(centre[1]), fmt(centre[2] + 0.12 * a))))
-    write_gro(in_path, atoms, ("8.0", "8.0", "8.0"))
-    ps = [[common.rat_str(float(c)) for c in a[3]] for a in atoms]
+    in_path = write_coords(Path(tmpdir) / "in", case.get("fmt", "gro"), atoms, ("8.0", "8.0", "8.0"))
+    ps = [[common.rat_str(x) for x in p] for p in read_positions(in_path)] if atoms else []
     # the residues as the real topology has them (for the specification)
     residues = real_residues(load_topology(top_path))
     req = dict(op="consume", skip=list(case["build_res"]), meta=meta, ps=ps, residues=residues)
     meta_path = None
     if case["mode"] == "c+mc":
-        meta_path = Path(tmpdir) / "centres.gro"
         cents = [(r[2] + 1, r[3], "C", (fmt(c[0]), fmt(c[1]), fmt(c[2] + 0.06)))
                  for r, c in list(zip(flat, centres))[:case["centres_given"]]]
-        write_gro(meta_path, cents, ("8.0", "8.0", "8.0"))
-        req = dict(op="consume2", skip=[], ps=ps, ps_meta=[[common.rat_str(float(x)) for x in c[3]] for c in cents],
+        meta_path = write_coords(Path(tmpdir) / "centres", case.get("fmt_meta", "gro"), cents, ("8.0", "8.0", "8.0"))
+        req = dict(op="consume2", skip=[], ps=ps, ps_meta=[[common.rat_str(x) for x in p] for p in read_positions(meta_path)],
                    residues=residues)
 
     state = dict(attempts=0, steps=0)
@@ -578,7 +658,9 @@ def judge_e2e(ctx, case, result, ans, residues):
         return
     spec = ans["spec"]                      # per residue: what the property says it receives
     flat = flat_residues(case["types"], case["listing"])
-    what = dict(listing=case["listing"], mode=case["mode"], build_res=case["build_res"], ignore=case["ignore"],
+    what = dict(listing=case["listing"], mode=case["mode"], fmt=case.get("fmt", "gro"),
+                resnames=sorted({r[0] for t in case["types"].values() for r in t["residues"]}),
+                build_res=case["build_res"], ignore=case["ignore"],
                 forced=result["forced"], given="".join("1" if g else "0" for g in case["given"]))
     n_given = sum(1 for s in spec if not s["build"])
     n_gen = len(spec) - n_given
@@ -614,7 +696,8 @@ def judge_e2e(ctx, case, result, ans, residues):
                 if want["atoms"]:
                     # supplied atom by atom: must be identical (in index order = output order)
                     exp = [[float(Fraction(x)) for x in v] for _, v in want["atoms"]]
-                    if coords != exp:
+                    # "exact after .gro formatting": the same three decimals
+                    if [[fmt(x) for x in c] for c in coords] != [[fmt(x) for x in c] for c in exp]:
                         fail("ignored-molecule-moved" if ignored else "supplied-atom-moved",
                                         "residue %d was given as %s, output has %s: %s" % (ridx, exp, coords, what))
                         break
@@ -629,7 +712,9 @@ def judge_e2e(ctx, case, result, ans, residues):
                     ctx.tally(e2e_ignored_without_coordinates=True)
     key = json.dumps(case, sort_keys=True) if (n_given and n_gen) else None
     ctx.case(key, sample=dict(stream="e2e", **what, result=result["error"] or "ok"),
-             stream="e2e", mode=case["mode"], forced_attempts=result["forced"]["attempts"],
+             stream="e2e", mode=case["mode"], input_format=case.get("fmt", "gro"),
+             special_resnames=any(r[0] in SPECIAL_NAMES for t in case["types"].values() for r in t["residues"]),
+             forced_attempts=result["forced"]["attempts"],
              forced_steps=_b(result["forced"]["steps"]), split="mixed" if (n_given and n_gen) else "all-given" if n_given else "none-given")
 
 
